@@ -32,7 +32,25 @@ What is compared (the oracle says what a variation can carry):
   os    g110  (the octets)                                        g111
   value: always; flags: always, after the wire rule "state bits of the flag octet are the value";
   time: only where the variation carries it (static: fctr only; events: all but os), as the 48-bit
-  millisecond count (synchronised/unsynchronised is not carried by these variations; no time = 0)."""
+  millisecond count (synchronised/unsynchronised is not carried by these variations; no time = 0).
+
+Soundness of the oracle under real-time nondeterminism (threads, TCP, timers): nothing is predicted.
+The trace is one process-wide ordered list (a mutex); the harness writes `op <n>` BEFORE it executes the
+n-th op and `updinfo` AFTER the transaction, the master's handler writes `h` lines before the master
+confirms, the outstation writes `cleared` when a confirm releases an event.  Every clause only uses
+orders that hold in every schedule:
+  * a value can reach the handler only after the transaction that wrote it began (its `op` marker);
+  * a static value was read after the master's previous solicited series ended (one request at a time),
+    so it must be a value not surely overwritten before that point (overwritten = a later transaction's
+    `updinfo` precedes it);
+  * an event may be released only after an `h` line carried it (the master confirms after its handler);
+  * convergence and at-least-once delivery are judged only after `quiesce` reports that an integrity poll
+    started after the last op completed and a following event poll delivered no event; a script that
+    does not get there within 10 s fails the clause `converged|no-quiescence`;
+  * events are identified by content (type, index, value, wire flags, time): the generator gives every
+    update a unique time stamp (octet strings: unique leading octets).
+What the run cannot show: schedules and byte offsets that were not sampled; it is a test of the real
+stack, the universally quantified part of C02 is the theorem about the abstraction."""
 import hashlib, json, os, shutil, struct, subprocess
 import propcheck
 from propcheck import *
@@ -569,17 +587,20 @@ class C02(Prop):
 
     @property
     def rule(self):
-        return ("engine pair: per script a fresh multi-thread runtime with outstation TCP server, byte proxy and master TCP "
-                "client (startup integrity, integrity on overflow IIN, class 1/2/3 poll every 30-80 ms, unsolicited on/off, "
-                "reconnect 15 ms, response timeout 500 ms); 3..40 points over the eight types and classes 1/2/3/none, "
-                "event buffers 1..5 per type (some scripts up to 40), rx/tx buffers from 249, both link error modes; ops: "
-                "update (single and multi-point transactions, detect/force), direct-operate commands whose ControlHandler "
-                "updates an analog output status, cut, cut at a byte offset, corrupt one byte, re-chunk 1..4096 with optional "
-                "gaps, waits; then quiesce. Oracle clauses: converged (seen = db per point in the fields the static variation "
-                "carries), fabricated (every handler delivery is a value the point held before the delivery; static values "
-                "not older than the end of the master's previous request), events (every created, not overflow-discarded "
-                "event reached the handler; no event released before it was delivered), no panic, quiescence within 10 s. "
-                "non-trivial = an event delivered and a cut survived (reconnected) and quiesced. totals over this run: %s"
+        return ("engine pair: per script a fresh multi-thread runtime (2-8 workers) with outstation TCP server, byte proxy and "
+                "master TCP client (startup integrity, integrity on overflow IIN, class 1/2/3 poll every 30-80 ms, unsolicited "
+                "on/off, reconnect 15 ms, response timeout 500 ms, confirm timeout 100/300 ms); 3..80 points over the eight "
+                "types and classes 1/2/3/none (kind wide: enough points of one type for multi-fragment static data), event "
+                "buffers 1..5 per type (kind burst: up to 40), rx/tx buffers from 249, both link error modes; ops: update "
+                "(single and multi-point transactions, detect/force), direct-operate commands whose ControlHandler updates an "
+                "analog output status, cut, cut at a byte offset, corrupt one byte, re-chunk 1..4096 with optional gaps, "
+                "half-open connections (outstation side of a cut connection lingers 30-200 ms), waits; then quiesce. Oracle "
+                "clauses: converged (seen = db per point in the fields the static variation carries; the integrity poll that "
+                "completed after quiescence reported every point), fabricated (every handler delivery is a value the point "
+                "held before the delivery, of that point and type; static values not older than the end of the master's "
+                "previous request), events (every created, not overflow-discarded event reached the handler; no event "
+                "released before it was delivered), no panic, quiescence within 10 s. non-trivial = an event delivered and a "
+                "cut survived (reconnected) and quiesced. totals over this run: %s"
                 % json.dumps(self.totals, sort_keys=True))
 
     # ---- case generation -------------------------------------------------------------------------
@@ -742,6 +763,9 @@ class C02(Prop):
             self.scripts_run += 1
             for k, v in stats.items():
                 self.totals[k] = self.totals.get(k, 0) + v
+            if any(c.endswith("|connection-overlapping-session") for c, _ in fails):
+                self.totals["scripts_showing_known_finding_session_replaced"] = \
+                    self.totals.get("scripts_showing_known_finding_session_replaced", 0) + 1
             self.totals["scripts"] = self.scripts_run
         return case.meta["_fails"], case.meta["stats"]
 
